@@ -221,12 +221,13 @@ func (a *WALBatchApplier) ApplyEntries(entries []*replication_proto.WALEntry, ap
 				protoEntry.SequenceNumber, err)
 		}
 
+		// Move the cursor past every entry as soon as it is applied: if a later
+		// entry of the batch fails, the retransmission must start after the
+		// entries that are already applied, not re-apply them over newer state
 		lastAppliedSeq = protoEntry.SequenceNumber
+		a.maxAppliedSeq = lastAppliedSeq
+		a.expectedNextSeq = lastAppliedSeq + 1
 	}
-
-	// Update tracking
-	a.maxAppliedSeq = lastAppliedSeq
-	a.expectedNextSeq = lastAppliedSeq + 1
 
 	fmt.Printf("Batch successfully applied. Last sequence: %d, Next expected: %d\n",
 		a.maxAppliedSeq, a.expectedNextSeq)
